@@ -29,7 +29,7 @@ class Gen01(mut.Gen):
             k = self.rng.choice(["clone_pair", "clone_pair", "nested_clone", "nested_clone", "equal_distinct", "move_own",
                                  "move_near", "move_near", "remove_clones", "remove_keep", "remove_keep_clones", "remove_children",
                                  "rekey_group", "rekey_group", "split_group", "del_clone", "copy_branch", "twins", "twins", "twin_route",
-                                 "twin_route", "twin_route"])
+                                 "twin_route", "twin_route", "move_cross", "move_cross"])
             try:
                 if getattr(self, "sp_" + k)():
                     return
@@ -163,6 +163,24 @@ class Gen01(mut.Gen):
         else:
             tbl = {str(w.rel(g)): rng.choice("abc") for g in grp}
             self.do(["sort", ti, pr, {"tbl": tbl}, rng.random() < 0.5, rng.random() < 0.5])
+        return True
+
+    def sp_move_cross(self):
+        """move_to a NODE (mostly) or the Tree object of ANOTHER tree: must be refused, both trees untouched"""
+        w, rng = self.w, self.rng
+        if len(w.trees) < 2:
+            if len(w.trees) >= 3:
+                return False
+            self.do(["new", isinstance(w.trees[0], TypedTree), None])
+            self.do(["add", len(w.trees) - 1, 0, rng.randrange(len(self.univ)), None, self._kind(len(w.trees) - 1), None])
+        ti = self.pick_tree()
+        n = self._pick(ti)
+        if n is None:
+            return False
+        tti = rng.choice([x for x in range(len(w.trees)) if x != ti])
+        ids = mut.live_ids(w, tti)
+        tgt = rng.choice(ids) if ids and rng.random() < 0.85 else 0
+        self.do(["move", ti, w.rel(n), tti, tgt, self.before_arg(tti, tgt)])
         return True
 
     def sp_move_own(self):
@@ -384,3 +402,28 @@ def gen_twins(quick=True):
                 seen.add(k)
                 out.append(o)
         yield dict(univ=TWIN_UNIV, setup=setup, alts=out, label=label, n=len(ids))
+
+
+# ---------------------------------------------------------------------------
+# cross-tree moves: move_to with a NODE (or the Tree object) of ANOTHER tree as target - never offered, must be
+# refused and leave both trees as they are (a branch linked into a foreign tree stays owned by / counted in the old one)
+# ---------------------------------------------------------------------------
+def gen_cross_move(typed=(False,), quick=False):
+    for ty in typed:
+        univ = ["s:a", "s:b", "s:c", "s:x", "s:y", "s:z", "s:new"]
+        k = "k1" if ty else None
+        setup = [["new", ty, None], ["new", ty, None],
+                 ["add", 0, 0, 0, None, k, None], ["add", 0, 1, 1, None, k, None], ["add", 0, 0, 2, None, k, None],     # tree 0: 1(2), 3
+                 ["add", 1, 0, 3, None, k, None], ["add", 1, 4, 4, None, k, None], ["add", 1, 0, 5, None, k, None],     # tree 1: 4(5), 6
+                 ["add", 1, 0, 0, None, k, None]]                                                                        # tree 1: 7 = clone id of node 1
+        nodes = {0: [1, 2, 3], 1: [4, 5, 6, 7]}
+        kids = {(0, 0): [1, 3], (0, 1): [2], (0, 2): [], (0, 3): [], (1, 0): [4, 6, 7], (1, 4): [5], (1, 5): [], (1, 6): [], (1, 7): []}
+        alts = []
+        for ti in (0, 1):
+            tti = 1 - ti
+            for n in nodes[ti]:
+                for tgt in [0] + nodes[tti]:
+                    ch = kids[(tti, tgt)]
+                    for b in ([None, True] if quick else [None, True, False, 0, 1, -1]) + [{"n": c} for c in ch[:1]]:
+                        alts.append(["move", ti, n, tti, tgt, b])
+        yield dict(univ=univ, setup=setup, alts=alts, label="cross-move" + ("/typed" if ty else ""), n=7)
